@@ -233,7 +233,7 @@ func c42GenTable(rng *rand.Rand) (*c42Table, []c42Prefix) {
 		for k := 1 + rng.IntN(3); k > 0; k-- {
 			for try := 0; try < 20; try++ {
 				p := c42GenPrefix(rng, rng.IntN(3) == 0, all)
-				if seen[p.String()] {
+				if seen[p.String()] || (p.Bits >= 96 && c42IsV4Mapped(p.IP)) {
 					continue
 				}
 				seen[p.String()] = true
@@ -310,7 +310,17 @@ func c42IsAppPort(p uint16) bool {
 // IP protocol numbers gopacket has no decoder for.
 var c42UnknownProtos = []uint8{88, 103, 115, 253, 254, 9, 33}
 
+// c42GenDst draws a destination; IPv4-mapped IPv6 addresses are redrawn (no
+// stated family).
 func c42GenDst(rng *rand.Rand, all []c42Prefix, v6 bool) []byte {
+	for {
+		if a := c42GenDstAny(rng, all, v6); !c42IsV4Mapped(a) {
+			return a
+		}
+	}
+}
+
+func c42GenDstAny(rng *rand.Rand, all []c42Prefix, v6 bool) []byte {
 	var fam []c42Prefix
 	for _, p := range all {
 		if p.V6() == v6 {
